@@ -368,6 +368,27 @@ pub fn run_c15(ctx: &mut Ctx) {
         let mut run = DequeRun { slides: 0, nonzero_prefix: 0, max_len: 0, heap_transition: false };
         let res = run_deque_backing(backing, &ops, &mut run);
         ctx.ops += ops.len() as u64;
+        let ops = match &res {
+            Err((_, sig, _)) if !ctx.args.miri() => {
+                let sig = sig.clone();
+                crate::ctx::shrink_vec(
+                    &ops,
+                    |cand| {
+                        let mut r = DequeRun { slides: 0, nonzero_prefix: 0, max_len: 0, heap_transition: false };
+                        matches!(run_deque_backing(backing, cand, &mut r), Err((_, s, _)) if s == sig)
+                    },
+                    3000,
+                )
+            }
+            _ => ops,
+        };
+        let res = match res {
+            Err(_) => {
+                let mut r = DequeRun { slides: 0, nonzero_prefix: 0, max_len: 0, heap_transition: false };
+                run_deque_backing(backing, &ops, &mut r)
+            }
+            ok => ok,
+        };
         record_deque(ctx, "random", backing, idx, &ops, &run, res, u64::MAX);
         ctx.end_case(idx);
         if ctx.too_many_violations() {
@@ -839,6 +860,27 @@ pub fn run_c16(ctx: &mut Ctx) {
         let mut run = SortedRun::default();
         let res = run_sorted_backing(backing, &ops, &mut run);
         ctx.ops += ops.len() as u64;
+        let ops = match &res {
+            Err((_, sig, _)) if !ctx.args.miri() => {
+                let sig = sig.clone();
+                crate::ctx::shrink_vec(
+                    &ops,
+                    |cand| {
+                        let mut r = SortedRun::default();
+                        matches!(run_sorted_backing(backing, cand, &mut r), Err((_, s, _)) if s == sig)
+                    },
+                    3000,
+                )
+            }
+            _ => ops,
+        };
+        let res = match res {
+            Err(_) => {
+                let mut r = SortedRun::default();
+                run_sorted_backing(backing, &ops, &mut r)
+            }
+            ok => ok,
+        };
         record_sorted(ctx, "random", backing, idx, &ops, &run, res, u64::MAX);
         ctx.end_case(idx);
         if ctx.too_many_violations() {
